@@ -272,7 +272,7 @@ func dumpValue(sb *strings.Builder, v reflect.Value, depth int) {
 		var buf bytes.Buffer
 		raw := v.Bytes()
 		if len(raw) == 0 {
-			sb.WriteString("raw()")
+			sb.WriteString("raw(null)") // an absent raw JSON value and an explicit null are the same thing
 		} else if json.Compact(&buf, raw) == nil {
 			sb.WriteString("raw(" + buf.String() + ")")
 		} else {
